@@ -4,8 +4,9 @@ CONSTANTS
   MaxVer = 1
   MaxReorgs = 1
   MaxCrashes = 1
-  Gated = FALSE
+  Gates = {}
+  Interleave = FALSE
   Cfgs <- MCCfgsNoFT
   OraclesFor <- MCOraclesA
-INVARIANTS TypeOK JobTimeRight JobCoversExactly NoSlotTwice OnlyStrictlyLaterOnStart SyncWindowRight EpochTickOnce NoFutureDutyUnscheduled NoStaleJob ReorgActedOn
+INVARIANTS TypeOK JobTimeRight JobCoversExactly NoSlotTwice OneJobPerDutySlot OnlyStrictlyLaterOnStart SyncWindowRight EpochTickOnce NoFutureDutyUnscheduled NoStaleJob ReorgActedOn
 CHECK_DEADLOCK FALSE
